@@ -466,4 +466,22 @@ theorem parse_print_parse_expression {s : String} {e : Expr} (h : parseExpressio
   obtain ⟨ts, r, hl, hp, hb⟩ := parseExpression_inv h
   exact parse_print_parse_text hl hp hb (hg ts r hl hp)
 
+/-- … "and printing that result yields the same text again" -/
+theorem print_stable {s : String} {e : Expr} (h : parseExpression s = .ok e)
+    (hg : ∀ ts r, lexExpr s = .ok ts → parseExpressionToks ts = .ok r → r.goodNames = true) :
+    ∀ e', parseExpression e.print = .ok e' → e'.print = e.print := by
+  intro e' h'
+  rw [parse_print_parse_expression h hg] at h'
+  cases h'; rfl
+
+/-- … "consequently two parsed ASTs that differ print differently": on parser outputs the printer is injective -/
+theorem print_injective_on_parsed {s1 s2 : String} {e1 e2 : Expr} (h1 : parseExpression s1 = .ok e1) (h2 : parseExpression s2 = .ok e2)
+    (hg1 : ∀ ts r, lexExpr s1 = .ok ts → parseExpressionToks ts = .ok r → r.goodNames = true)
+    (hg2 : ∀ ts r, lexExpr s2 = .ok ts → parseExpressionToks ts = .ok r → r.goodNames = true)
+    (hp : e1.print = e2.print) : e1 = e2 := by
+  have a := parse_print_parse_expression h1 hg1
+  have b := parse_print_parse_expression h2 hg2
+  rw [hp, b] at a
+  exact (Except.ok.inj a).symm
+
 end Hpl
